@@ -10,10 +10,12 @@ class C06(Prop):
     def suites(self, tier, rng):
         n = 250 if tier == "quick" else 4000
         F7 = execgen.mk_case("fn", "full_sync", 4, 0, 0, [(200, False), (200, False)])
-        return [Suite("exec", execgen.HEADER, [F7] + [execgen.gen_case(rng, maxL=4) for _ in range(n)])]
+        return [Suite("exec", execgen.HEADER, [F7] + [execgen.gen_case(rng, maxL=4) for _ in range(n)]),
+                # executor limit 1 with a pipeline that itself reads ahead (`.buffered(R)`): close must still wait for every item (oracle only)
+                Suite("read_ahead_pipeline(oracle only)", execgen.HEADER, [execgen.gen_readahead_case(rng) for _ in range(n // 4)], compare=False)]
     def oracle(self, case, recs): return execgen.oracle_c06(case, recs)
     def nontrivial(self, case, recs):
-        m = case.meta; return m["profile"] == "exec" and len(m["items"]) >= 2 and m["kind"] in ("ff", "fn")
+        m = case.meta; return m["profile"] == "exec" and len(m["items"]) >= 2 and m["kind"] in ("ff", "fn", "fb")
     def parse_replay(self, text):
         lines = [l for l in text.splitlines() if l.strip() and not l.startswith("#")]
         return Suite("replay", execgen.HEADER, [execgen.parse_case_line(l) for l in lines])
